@@ -41,6 +41,21 @@ CHECKS = {
             "Generated records (hostile message text, optional location fields, key-values, recursive Display arguments) through every provided format function, both line endings, all write modes; file bytes must equal reference rendering + exactly one line ending per record (inner records first), coloured output minus SGR sequences must equal the plain rendering, JSON must be one parsable line decoding to the generated values, and all outputs of a record must show the timestamp the recording writer saw (clock advancing 1 us per reading). Search, not proof.",
             "trusts the reference renderers (written from the documented layouts), serde_json as JSON decoder; stdout/stderr duplicates are covered by C13 (routing) but their timestamps are not parsed here",
             "DESIGN.md 4/C20"),
+    "C06": ("exploration",
+            "model-based multi-run histories (proptest) with stream-continuation and immutability invariants over directory snapshots",
+            "Generated sequences of 2-5 runs (append on/off, writes, rotations, clock gaps from 0 ms to 40 days) with all namings and cleanup strategies and directory manipulations between runs (all rotated files gzipped, current missing, gaps); after every run the gunzipped family stream must be the previous stream plus the run's lines (a suffix of it with cleanup; documented truncation modelled) and every closed file of the previous snapshot must be unchanged or legitimately cleaned up. Search, not proof; found and led to the repair of six restart defects.",
+            "trusts the name grammar / semantic order and the directory-snapshot comparison; [starttime] part excluded; KF-C07-1 tolerated by exact signature",
+            "DESIGN.md 4/C06"),
+    "C07": ("exploration",
+            "model-based histories (proptest) with cleanup invariants checked after every operation; randomized schedules (hook-point noise) for background executors",
+            "Generated histories x cleanup limits k,m in {0,1,2,3,5} x namings x suffixes x executors; upper bounds, contiguous-tail stream oracle (implies lossless compression and no plain twin), current file plain and present, and lower bounds from the reference partition model's count of produced files. Synchronous cleanup is checked after every operation; background/async cleanup after shutdown under seed-chosen scheduling noise (sampling, not enumeration).",
+            "trusts the partition model for the number of produced files; schedules of the background cleanup are sampled by the OS + noise only; KF-C07-1 tolerated by exact signature",
+            "DESIGN.md 4/C07"),
+    "C14": ("exploration",
+            "differential twin runs (with vs without foreign entries) over proptest-generated near-miss names, metadata comparison of the foreign entries",
+            "The same generated multi-run history is executed in a directory pre-populated with near-miss foreign entries (classified by the reference family predicate) and in an empty directory under the same virtual clock; foreign entries must keep name/inode/size/mtime/bytes, and family files, existing_log_files answers and error counts must be identical between the twins. Search, not proof.",
+            "the reference family predicate defines 'foreign'; names that flexi_logger's lenient filter adopts are attributed to KF-C14-1 (exact signature) and kept to 15% of the cases",
+            "DESIGN.md 4/C14"),
     "C08": ("exploration",
             "proptest histories + reference partition model (model-based testing)",
             "Generated size limits, record-length sequences at the limit boundaries, all write modes incl. async, all namings, append restarts; the ordered list of file contents must equal the partition predicted by an independent model (rotate iff size before the write > N, size seeded from the appended file), plus the corollary 'no record appended to a file already above N' checked directly on the files. Search over thousands of cases, no proof.",
